@@ -19,4 +19,37 @@ abbrev U64 := BitVec 64
 /-- Go `int64` (wrapping arithmetic, signed comparison via `BitVec.slt`/`BitVec.sle`) -/
 abbrev I64 := BitVec 64
 
+/-- the three ways a call can end: `Res.elim (f a) (fun v => ..) (fun e => ..) <on panic>` -/
+def Res.elim {ε α β : Type} (x : Res ε α) (f : α → β) (g : ε → β) (p : β) : β :=
+  match x with
+  | .ok a => f a
+  | .err e => g e
+  | .panic => p
+
+/-- use the value of a call that cannot fail (a helper without error result) -/
+def Res.andThen {ε α β : Type} (x : Res ε α) (k : α → Res ε β) : Res ε β := Res.elim x k (fun e => .err e) .panic
+
+/-- change the error type (used to compare results of different error enumerations by message) -/
+def Res.mapErr {ε ε' α : Type} (h : ε → ε') : Res ε α → Res ε' α
+  | .ok a => .ok a
+  | .err e => .err (h e)
+  | .panic => .panic
+
+/-! `math/bits` -/
+
+/-- `hi` of `bits.Mul64(a, b)`: the upper 64 bits of the 128-bit product -/
+def mul64Hi (a b : U64) : U64 := BitVec.ofNat 64 (a.toNat * b.toNat / 2 ^ 64)
+/-- `lo` of `bits.Mul64(a, b)` -/
+def mul64Lo (a b : U64) : U64 := a * b
+/-- `sum` of `bits.Add64(a, b, carry)` -/
+def add64Sum (a b c : U64) : U64 := a + b + c
+/-- `carryOut` of `bits.Add64(a, b, carry)` -/
+def add64Carry (a b c : U64) : U64 := BitVec.ofNat 64 ((a.toNat + b.toNat + c.toNat) / 2 ^ 64)
+/-- `diff` of `bits.Sub64(a, b, borrow)` -/
+def sub64Diff (a b c : U64) : U64 := a - b - c
+/-- `borrowOut` of `bits.Sub64(a, b, borrow)` (borrow ∈ {0,1}): 1 exactly when `a < b + borrow` -/
+def sub64Borrow (a b c : U64) : U64 := BitVec.ofNat 64 ((b.toNat + c.toNat + (2 ^ 64 - 1 - a.toNat)) / 2 ^ 64)
+/-- `bits.Len64(x)`: the number of bits needed to represent `x` -/
+def len64 (x : U64) : Int := if x = 0#64 then 0 else (Nat.log2 x.toNat : Int) + 1
+
 end Verif.GoSem
